@@ -246,7 +246,13 @@ def main() -> int:
     skips += [{"id": "tabs", "text": "# pyrefact: skip_file\nif True:\n\tx = 1   \n\n\n\n\ty = 2\n", "stdin": True},
               {"id": "invalid", "text": "def f(:\n  # pyrefact: skip_file\n", "stdin": False},
               {"id": "in_string", "text": "x = '''\n# pyrefact: skip_file\n'''\nimport os\n", "stdin": False},
-              {"id": "no_newline", "text": "import os   \nx=1 # pyrefact: skip_file", "stdin": True}]
+              {"id": "no_newline", "text": "import os   \nx=1 # pyrefact: skip_file", "stdin": True},
+              # other opt-out comments before and after the skip_file comment: every comment of the file counts, not the first one
+              {"id": "ignore_before_skip", "text": "import os   # pyrefact: ignore\nimport sys\nx=1\n# pyrefact: skip_file\ny = [ 1,2 ]\n", "stdin": True},
+              {"id": "ignore_before_skip_same_spelling", "text": "x = 1  #pyrefact:ignore\n\n\n\n\ndef f( a ):\n    return a #pyrefact:skip_file\n", "stdin": True},
+              {"id": "skip_twice", "text": "# pyrefact: skip_file\nimport os\n# pyrefact: skip_file\nx=1\n", "stdin": False},
+              {"id": "skip_then_ignore", "text": "# pyrefact: skip_file\nimport os  # pyrefact: ignore\nx=1\n", "stdin": True},
+              {"id": "lookalike_before_skip", "text": "# pyrefact: ignored by nobody\nimport os\nx=1\n# pyrefact: skip_file\n", "stdin": False}]
     tot, tot_s = {}, {}
     with pool.Pool() as p:
         verdict.run_witnesses(v, p)
